@@ -21,7 +21,7 @@ def _collapse(r):
     if isinstance(r, real_np.ndarray) and r.dtype == object:
         flat = r.reshape(-1)
         if flat.size and all(isinstance(x, (bool, real_np.bool_)) for x in flat):
-            return r.astype(bool)
+            return r.astype(bool).view(SArr)
         return r.view(SArr)
     return r
 
@@ -183,14 +183,14 @@ class NPShim:
     # ---- constructors
     def zeros(self, shape, dtype=None, **kw):
         if _is_bool_dtype(dtype):
-            return real_np.zeros(shape, dtype=bool)
+            return real_np.zeros(shape, dtype=bool).view(SArr)
         if dtype is not None and _is_complex_dtype(dtype):
             return _objarr(shape, 0j)
         return _objarr(shape, 0)
 
     def ones(self, shape, dtype=None, **kw):
         if _is_bool_dtype(dtype):
-            return real_np.ones(shape, dtype=bool)
+            return real_np.ones(shape, dtype=bool).view(SArr)
         if dtype is not None and _is_complex_dtype(dtype):
             return _objarr(shape, 1 + 0j)
         return _objarr(shape, 1)
@@ -227,12 +227,12 @@ class NPShim:
 
     def array(self, x, dtype=None, **kw):
         if isinstance(x, real_np.ndarray) and x.dtype == bool:
-            return x.copy()
+            return x.copy().view(SArr)
         if isinstance(x, real_np.ndarray):
             return real_np.asarray(x).astype(object).view(SArr)
         a = real_np.array(x, dtype=object)
         if a.dtype == object and a.size and all(isinstance(v, (bool, real_np.bool_)) for v in a.reshape(-1)):
-            return a.astype(bool)
+            return a.astype(bool).view(SArr)
         return a.view(SArr)
 
     def asarray(self, x, dtype=None, **kw):
